@@ -37,6 +37,11 @@ def case_from_tlc(v):
         "singletons": bool(ex["singletons"]),
         "acyclic": bool(ex["acyclic"]),
         "free": sorted(ex["free"]),
+        "guess": sorted(ex["guess"]),
+        "sgroups": sorted(sorted(grp) for grp in ex["sgroups"]),
+        "opts": sorted(({k: (bool(v) if isinstance(v, bool) else int(v) if isinstance(v, int) else str(v))
+                         for k, v in dict(o).items()} for o in ex["opts"]),
+                       key=lambda o: repr(sorted(o.items()))),
         "mono": _dict(ex["mono"]),
     }
 
@@ -70,6 +75,13 @@ def _flow_class():
                     s += wk * input_data[k][0]
                 return {o: array([s + co]) for o, co in self._c.items()}
 
+            def _compute_jacobian(self, input_names=(), output_names=()):
+                # d out_v / d in_k = w_k (needed by the Newton-type inner MDAs and by linearize())
+                ins_, outs_ = self._init_jacobian(input_names, output_names)
+                for o in outs_:
+                    for k in ins_:
+                        self.jac[o][k] = array([[float(self._w.get(k, 0))]])
+
         _CLS["c"] = FlowDiscipline
     return _CLS["c"]
 
@@ -92,15 +104,19 @@ def _status(ex):
     return "raised:" + type(ex).__name__
 
 
-def _data(out, names):
+def _data(out, names, atol=0.0):
     """output data -> parallel lists of names and integer values (integral False when a value is not an
-    integer representable by TLC)."""
+    integer representable by TLC).  atol > 0 (inner MDAs that solve linear systems in floating point):
+    a value within atol of an integer is transported as that integer."""
     ns, vs, integral = [], [], True
     for k in names:
         if k not in out:
             continue
         a = out[k]
         try:
+            x = float(a.ravel()[0])
+            if atol and abs(x - round(x)) <= atol:
+                a = a.ravel()[:1].round()
             ok = a.size == 1 and float(a.ravel()[0]).is_integer() and abs(float(a.ravel()[0])) < INT_LIMIT
         except Exception:  # noqa: BLE001
             ok = False
@@ -150,8 +166,69 @@ def observe(case, kinds):
         rep["errors"]["structure"] = traceback.format_exc(limit=8)
         return rep
     for kind in kinds:
-        rep["runs"].append(run_kind(case, kind, names, rep))
+        if isinstance(kind, str):
+            rep["runs"].append(run_kind(case, kind, names, rep))
+        else:
+            rep["runs"].append(run_option(case, kind[1], kind[2], names, rep))
     return rep
+
+
+EXACT_INNER = ("MDAJacobi", "MDAGaussSeidel")   # plain fixed-point iterations: every iterate is an integer vector
+
+
+def run_option(case, opt, idx, names, rep):
+    """MDAChain under one option record chosen by TLC (SelectedOptions)."""
+    from gemseo.core.coupling_structure import CouplingStructure
+    from gemseo.mda.factory import MDAFactory
+    from gemseo.mda.mda_chain import MDAChain
+
+    tag = f"mdaopt#{idx}"
+    run = {"kind": "mdaopt", "tag": tag, "opt": opt, "status": "ok", "names": [], "vals": [], "integral": True,
+           "user": [], "mdas": [], "mdacs": [], "log": [], "rounded": opt["inner"] not in EXACT_INNER}
+    log = run["log"]
+    try:
+        # init "guess": default values for the free names and the strong couplings only
+        defaults = case["x0"] if opt["init"] != "guess" else {k: case["x0"][k] for k in case["guess"]}
+        ds = build(case, defaults, log)
+        pos = _positions(ds)
+        fields = MDAFactory().get_class(opt["inner"]).Settings.model_fields
+        inner = {}
+        if "acceleration_method" in fields:
+            inner["acceleration_method"] = "NoTransformation"
+        if "over_relaxation_factor" in fields:
+            inner["over_relaxation_factor"] = 1.0
+        if "n_processes" in fields:
+            inner["n_processes"] = opt["np"]
+            inner["use_threading"] = True
+        settings = {"tolerance": 1e-12, "max_mda_iter": 30, "inner_mda_name": opt["inner"],
+                    "inner_mda_settings": inner, "chain_linearize": opt["lin"],
+                    "mdachain_parallelize_tasks": opt["par"], "initialize_defaults": opt["init"] != "off",
+                    "n_processes": opt["np"], "use_threading": True}
+        if opt["par"]:
+            settings["mdachain_parallel_settings"] = {"use_threading": True, "n_processes": opt["np"]}
+        if opt["cs"] or opt["sub"] == "user":
+            cs = CouplingStructure(ds)
+            if opt["cs"]:
+                settings["coupling_structure"] = cs
+            if opt["sub"] == "user":
+                # one structure per group that gets an inner MDA (the groups TLC names: case["sgroups"]),
+                # in the order of the execution sequence the user sees
+                need = {frozenset(grp) for grp in case["sgroups"]}
+                groups = [grp for stage in cs.sequence for grp in stage
+                          if frozenset(pos.get(id(d), 0) for d in grp) in need]
+                settings["sub_coupling_structures"] = [CouplingStructure(list(grp)) for grp in groups]
+                run["user"] = [[pos.get(id(d), 0) for d in grp] for grp in groups]
+        mda = MDAChain(ds, **settings)
+        run["mdas"] = [[pos.get(id(d), 0) for d in m.disciplines] for m in mda.inner_mdas]
+        run["mdacs"] = [[pos.get(id(d), 0) for d in m.coupling_structure.disciplines] for m in mda.inner_mdas]
+        out = mda.execute()
+        run["names"], run["vals"], run["integral"] = _data(out, names, 1e-6 if run["rounded"] else 0.0)
+        if not run["integral"]:
+            rep["errors"][tag] = "non-integer output data: " + repr({k: out[k].tolist() for k in names if k in out})
+    except Exception as ex:  # noqa: BLE001
+        run["status"] = _status(ex)
+        rep["errors"][tag] = traceback.format_exc(limit=8)
+    return run
 
 
 def run_kind(case, kind, names, rep):
@@ -222,7 +299,10 @@ def warm_up():
     import gemseo.core.chains.parallel_chain  # noqa: F401
     import gemseo.core.coupling_structure  # noqa: F401
     import gemseo.mda.gauss_seidel  # noqa: F401
+    import gemseo.mda.gs_newton  # noqa: F401
     import gemseo.mda.jacobi  # noqa: F401
+    import gemseo.mda.newton_raphson  # noqa: F401
+    import gemseo.mda.quasi_newton  # noqa: F401
     import gemseo.mda.mda_chain  # noqa: F401
 
     _flow_class()
